@@ -28,6 +28,7 @@ CHECKS = {
 CHECKS["C17"] = {
     "engine": "sched",
     "harness": "c17",
+    "fnentry_pkgs": ["github.com/specterops/dawgs/query"],
     "packages": ["traversal", "util", "util/channels", "util/atomics", "graph", "ops", "graphcache", "cardinality", "cache"],
     "level": "exploration",
     "budget": {"quick": 30, "thorough": 900},
@@ -69,7 +70,7 @@ CHECKS["C15"] = {
     "harness": "c15",
     "packages": ["algo", "cache", "cardinality"],
     "level": "exploration",
-    "budget": {"quick": 20, "thorough": 600},
+    "budget": {"quick": 35, "thorough": 900},
     "rule": "one evaluation = one seeded run: random digraph (1-8 nodes with arbitrary uint64 ids, self loops, parallel and antiparallel edges, isolated nodes) built with the CSR or adjacency-map builder, cache capacity in {-1,0,1,2,3,4,n,n+2,100}, then a history of 2-10 queries (CanReach, ReachOf..., ReachSliceOf..., OrReach, XorReach; both directions; members not in the graph) against one ReachabilityCache. Every answer is compared with a BFS on the raw edge list; the SCC partition and component DAG are checked at construction. "
             "Non-trivial = at least one query was answered with the help of a cache hit or both caches ended full (eviction pressure); distinct = distinct workloads among those (hash), union over workers.",
     "real": ["algo.StronglyConnectedComponents / ComponentGraph / ReachabilityCache", "cache.Sieve", "cardinality", "container CSR + adjacency builders"],
